@@ -466,6 +466,9 @@ def selftest():
     V = []
     b = lambda name, file, old, new, rule, expect="", **kw: V.append(dict(name=name, kind="break", file=file, old=old, new=new, rule=rule, expect=expect, **kw))
     n = lambda name, file, old, new, **kw: V.append(dict(name=name, kind="neutral", file=file, old=old, new=new, **kw))
+    PYDM_ = "phonopy/harmonic/dynamical_matrix.py"
+    b("factory rounds the array the new object holds, i.e. possibly the caller's", PYDM_, "        dm.nac_params = nac_params\n    return dm\n", "        dm.nac_params = nac_params\n    if frequency_scale_factor is None and decimals is not None:\n        fc = dm.force_constants\n        fc[:] = fc.round(decimals=decimals)\n    return dm\n", "R02y.ctoralias", "get_dynamical_matrix")
+    n("factory rounds a copy of what the new object holds", PYDM_, "        dm.nac_params = nac_params\n    return dm\n", "        dm.nac_params = nac_params\n    if frequency_scale_factor is None and decimals is not None:\n        fc = np.array(dm.force_constants)\n        fc[:] = fc.round(decimals=decimals)\n    return dm\n")
     b("positions wrapped before the change to the reduced basis", "phonopy/structure/cells.py", "        supercell_fracs = np.dot(self._supercell_pos, trans_mat)\n        supercell_fracs -= np.rint(supercell_fracs)\n", "        supercell_fracs = np.dot(self._supercell_pos - np.rint(self._supercell_pos), trans_mat)\n", "R02m", "_transform_cell_basis")
     b("forward phase sign", DYN, "            phase += q[m] * svecs[adrs + l][m];", "            phase -= q[m] * svecs[adrs + l][m];", "R02a", "get_dm")
     b("pair addressing transposed", DYN, "    i_pair = k * num_patom + i;\n    m_pair = multi[i_pair][0];\n    adrs = multi[i_pair][1];\n\n    for (l = 0; l < m_pair; l++) {\n        phase = 0;", "    i_pair = i * num_patom + k;\n    m_pair = multi[i_pair][0];\n    adrs = multi[i_pair][1];\n\n    for (l = 0; l < m_pair; l++) {\n        phase = 0;", "R02a", "get_dm")
